@@ -248,6 +248,19 @@ class Ser(Stub):
 
     def rename(self, *a, **k): return Ser(self.v)
 
+    def dropna(self, **k):
+        return Ser(ABSENT if (self.v is ABSENT or _isnan(self.v)) else self.v)
+
+    @property
+    def empty(self):
+        return self.v is ABSENT
+
+    def _abs_len(self):
+        return 0 if self.v is ABSENT else 1
+
+    def any(self, **k):
+        return self.v is not ABSENT and bool(self.v) and not _isnan(self.v)
+
     # the values of the one row as a NumPy array: same abstraction, no index to align on
     def to_numpy(self, dtype=None, **k):
         return self.astype(dtype) if dtype is not None else Ser(self.v)
